@@ -152,6 +152,47 @@ def explore(label: str, cfg: Dict[str, Any], budget: int, rng: random.Random, ch
     return traces
 
 
+def explore_repeats(label: str, cfg: Dict[str, Any], rng: random.Random, chk: common.Check) -> List[Dict[str, Any]]:
+    """Directed histories: for every leaf verb of the live request tree one well-formed instance is sent TWICE in a row
+    (the second one finds the state the first one made: already compromised, already stopped, already scanned ...).  Both
+    must be answered with a documented status."""
+    game = scenarios.build(cfg)
+    sim = game.simulation
+    numbering = rq.DigestNumbering()
+    paths = sim._request_manager.get_request_types_recursively()
+    by_verb: Dict[str, List[Any]] = {}
+    for p in paths:
+        v = str(p[-1])
+        if v in LEAF_PARAMS and v not in ("shutdown", "reset", "startup"):
+            by_verb.setdefault(v, []).append(p)
+    traces = []
+    for v in sorted(by_verb):
+        p = rng.choice(by_verb[v])
+        req = list(p) + LEAF_PARAMS[v]
+        cur = numbering.num(rq.state_digest(sim))
+        dig0, events, meta = cur, [], []
+        for rep in (1, 2):
+            obs, leaf = rq.dry_run(sim, req)
+            gone = rq.addresses_absent(sim, req)
+            pw = rq.documented_power_ok(sim, req)
+            status, reason, raised = "", False, None
+            try:
+                resp = sim.apply_request(copy.deepcopy(req))
+                status = getattr(resp, "status", None) or f"not-a-response:{type(resp).__name__}"
+                data = getattr(resp, "data", None) or {}
+                reason = bool(data.get("reason")) if isinstance(data, dict) else False
+            except Exception as e:  # noqa - an exception out of repository code is an event no module allows
+                status = f"raised:{type(e).__name__}"
+                raised = repr(e)
+            post = numbering.num(rq.state_digest(sim))
+            events.append(rq.req_event(obs, leaf, True, status, reason, cur, post, "na", False, False, gone, pwok=pw))
+            meta.append({"request": [str(x)[:60] for x in req], "kind": "repeat:" + v, "mutation": f"sent #{rep}", "raised": raised})
+            chk.add_case({"s": label, "k": "repeat:" + v, "n": rep, "st": status}, nontrivial=True)
+            cur = post
+        traces.append({"cfg": {"dig": dig0}, "ev": events, "meta": {"scenario": label, "requests": meta}})
+    return traces
+
+
 def explore_after_uninstall(label: str, cfg: Dict[str, Any], rng: random.Random, chk: common.Check, per_scenario: int = 6) -> List[Dict[str, Any]]:
     """Directed histories: an application is uninstalled through its request, then every request it used to offer (the
     routes read from the live tree BEFORE the removal, plus the generic application verbs) is sent to its name.  The
@@ -529,6 +570,8 @@ def main(tier: str, seed: int) -> int:
         trs = explore_after_uninstall(label, cfg, rng, chk, 6 if tier == "quick" else 30)
         n_gone += sum(1 for tr in trs for e in tr["ev"] if e["gone"])
         traces += trs
+    for label, cfg in scenario_list(tier)[: 2 if tier == "quick" else None]:
+        traces += explore_repeats(label, cfg, rng, chk)
     traces += explore_declared_off(rng, chk)
     traces += explore_power_requests(rng, chk)
     if n_gone == 0:
